@@ -1716,7 +1716,7 @@ func (e *Enc) applyModifies(fc *FuncContract, env map[string]SV, callee *ssa.Fun
 			n := e.havocComp(post, c, "")
 			pred := strings.ReplaceAll(t.pred, "o!", "o")
 			a := e.get(pre, e.allocComp())
-			e.assume(fmt.Sprintf("(forall ((o Ref)) (! (=> (and (isalloc %s o) (not %s)) (= (select %s o) (select %s o))) :pattern ((select %s o))))", a, pred, n, cur, n))
+			e.assume(fmt.Sprintf("(forall ((o Ref)) (! (=> (and %s (not %s)) (= (select %s o) (select %s o))) :pattern ((select %s o))))", isAlloc(a, "o"), pred, n, cur, n))
 			ms.add(c.Fam)
 		default:
 			_, vs := arraySorts(c.Sort)
